@@ -20,6 +20,14 @@ inductive Ident where
   | passed | orig | other | unset
   deriving DecidableEq, Repr, FromJson, ToJson, Inhabited
 
+/-- what a validator of the class does: validator number `idx` of field `field` REJECTS (raises) whenever the
+    instance it is given currently holds, in field `watch` (its own field or another one), a value marked bad -/
+structure Veto where
+  field : String
+  idx : Nat
+  watch : String
+  deriving DecidableEq, Repr, FromJson, ToJson, Inhabited
+
 structure Case where
   /-- class description (its `call` is ignored) -/
   base : Init.Case
@@ -28,6 +36,12 @@ structure Case where
   cur : List (String × Option Val)
   /-- `**changes`: by init alias for evolve, by field name for assoc -/
   changes : List (String × Val)
+  /-- the validators whose verdict depends on the instance's state -/
+  veto : List Veto
+  /-- layout facts of the instance's class, read from the real class: instances have a `__dict__`; copying
+      goes through an attrs-generated `__getstate__`, which reads every field -/
+  instHasDict : Bool
+  copyNeedsAll : Bool
   deriving Repr, FromJson, ToJson, Inhabited
 
 structure Obs where
@@ -44,6 +58,12 @@ structure Obs where
   /-- per judged field (evolve: the init fields; assoc: every field), in field order: which *object* the result
       holds there (compared by identity with the object passed as the change and with the original's) -/
   ident : List (String × Ident)
+  /-- the user callbacks (pre-init, factories, converters, validators, post-init) that ran during the
+      operation, in order, with their arguments -/
+  trace : List Event
+  /-- evolve only: exception kind, result values and callback trace are those of calling the class directly
+      with the same arguments (`cls(**{alias: current value, **changes})`) -/
+  likeDirect : Bool
   deriving DecidableEq, Repr, FromJson, ToJson, Inhabited
 
 def curOf (cur : List (String × Option Val)) (n : String) : Option Val :=
@@ -94,24 +114,90 @@ def assocIdent (cur : List (String × Option Val)) (changes : List (String × Va
 def cacheMisplaced (r : RunIn) : Bool :=
   r.cfg.cacheHash && r.cfg.frozen && !r.cfg.slots && r.cacheIsSlot
 
+/-! ### validators whose verdict depends on the instance -/
+
+/-- the text contains `bad` -/
+def containsBad : List Char → Bool
+  | [] => false
+  | c :: cs => ['b', 'a', 'd'].isPrefixOf (c :: cs) || containsBad cs
+
+/-- a value is marked bad if its text contains `bad` (so a converted bad value is still bad) -/
+def isBad (v : Option Val) : Bool :=
+  match v with
+  | some s => containsBad s.toList
+  | none => false
+
+/-- validator `i` of field `n` rejects an instance holding `vals` -/
+def vetoFires (veto : List Veto) (vals : List (String × Option Val)) (n : String) (i : Nat) : Bool :=
+  veto.any (fun r => r.field == n && r.idx == i && isBad (curOf vals r.watch))
+
+/-- the validator calls of the generated initializer, in order: after every field is stored, per field with a
+    statement in field order, the field's validators by index (`_attrs_to_init_script`, validator block) -/
+def validatorIds (attrs : List Attr) : List (String × Nat) :=
+  (attrs.filter participates).flatMap (fun a => (List.range a.validators).map (fun i => (a.name, i)))
+
+/-- the first validator call that rejects an instance holding `vals` -/
+def vetoFault (r : RunIn) (veto : List Veto) (vals : List (String × Option Val)) : Option EventId :=
+  if r.cfg.runValidators then
+    ((validatorIds r.attrs).find? (fun ni => vetoFires veto vals ni.1 ni.2)).map
+      (fun ni => { kind := "validator", field := ni.1, idx := ni.2 })
+  else none
+
+/-- the initializer run in which callback `f` raises -/
+def withFault (k : Init.Case) (f : EventId) : Init.Case := { k with run := { k.run with fault := some f } }
+
+/-! ### assoc's name check -/
+
+/-- names that are no fields but resolve on EVERY fields tuple (`tuple` / `object` attributes): `assoc` looks the
+    name up with `getattr(fields(cls), name, NOTHING)` and so takes them for fields (known finding K12a).  Only
+    the names the harness uses are listed. -/
+def resolvesOnTuple : List String :=
+  ["count", "index", "__len__", "__doc__", "__module__", "__getstate__", "__init__"]
+
+/-- `assoc`'s loop over `**changes`, in order: a field is written; a name resolving on the fields tuple is written
+    too (`object.__setattr__`: a stray instance attribute, AttributeError without `__dict__`); anything else
+    raises AttrsAttributeNotFoundError -/
+def assocLoop (isField : String → Bool) (hasDict : Bool) : List (String × Val) → Option Exc
+  | [] => none
+  | kv :: rest =>
+    if isField kv.1 then assocLoop isField hasDict rest
+    else if resolvesOnTuple.contains kv.1 then
+      (if hasDict then assocLoop isField hasDict rest else some .attributeError)
+    else some .notFound
+
+def failed (c : Case) (e : Exc) (trace : List Event) : Obs :=
+  { exc := some e, values := [], orig := c.cur, fresh := false, invariants := false, ident := [],
+    trace := trace, likeDirect := true }
+
 def model (c : Case) : Obs :=
   match c.op with
   | .evolve =>
-    if evolveMissing c.base.run.attrs c.cur c.changes then
-      { exc := some .attributeError, values := [], orig := c.cur, fresh := false, invariants := false, ident := [] }
+    if evolveMissing c.base.run.attrs c.cur c.changes then failed c .attributeError []
     else
-      let o := runInit (evolveCase c)
+      let k := evolveCase c
+      let o := runInit k
       match o.exc with
-      | some e => { exc := some e, values := [], orig := c.cur, fresh := false, invariants := false, ident := [] }
-      | none => { exc := none, values := o.values, orig := c.cur, fresh := true,
-                  -- eq/hash are only comparable when every field is set
-                  invariants := !(cacheMisplaced c.base.run && o.values.all (·.2.isSome)),
-                  ident := evolveIdent c.base.run.attrs c.changes o.values }
+      | some e => failed c e o.trace
+      | none =>
+        -- every field is stored; now the validators run: the first that rejects the new instance raises
+        match vetoFault k.run c.veto o.values with
+        | some f =>
+          let o1 := runInit (withFault k f)
+          { exc := o1.exc, values := [], orig := c.cur, fresh := false, invariants := false, ident := [],
+            trace := o1.trace, likeDirect := true }
+        | none =>
+          { exc := none, values := o.values, orig := c.cur, fresh := true,
+            -- eq/hash are only comparable when every field is set
+            invariants := !(cacheMisplaced c.base.run && o.values.all (·.2.isSome)),
+            ident := evolveIdent c.base.run.attrs c.changes o.values,
+            trace := o.trace, likeDirect := true }
   | .assoc =>
-    if c.changes.all (fun kv => c.cur.any (·.1 == kv.1)) then
+    -- a shallow copy and raw writes: no callback of the class runs, whatever the values are
+    match assocLoop (fun n => c.cur.any (·.1 == n)) c.instHasDict c.changes with
+    | none =>
       { exc := none, values := assocValues c.cur c.changes, orig := c.cur, fresh := true,
         invariants := true,
-        ident := assocIdent c.cur c.changes }
-    else { exc := some .notFound, values := [], orig := c.cur, fresh := false, invariants := false, ident := [] }
+        ident := assocIdent c.cur c.changes, trace := [], likeDirect := true }
+    | some e => failed c e []
 
 end Attrs.C12
